@@ -40,7 +40,10 @@ pub fn make_module() -> KMap {
             (KValue::Range(r), [KValue::Number(n)]) => match (r.start(), r.end()) {
                 (Some(start), Some((end, inclusive))) => {
                     let n = i64::from(n);
-                    let result = KRange::new(Some(start - n), Some((end + n, inclusive)));
+                    let result = KRange::new(
+                        Some(start.saturating_sub(n)),
+                        Some((end.saturating_add(n), inclusive)),
+                    );
                     Ok(result.into())
                 }
                 _ => runtime_error!("range.expanded can't be used with '{r}'"),
